@@ -173,6 +173,18 @@ def flags(F, R):
                 if not (init1 and bound): ok = False; why = 'loop over regions does not run from 1 to nr_regions-1'
             writes = [n for n in f.nodes if n and n['k'] == 'asg' and f.base_member(n['lhs'])]
             if writes: ok = False; why = 'is_flag_active writes a data member'
+            # the fold accumulates: each step combines the ACCUMULATED value with the region's answer and stores it back
+            for n in f.nodes:
+                if not (n and n['k'] == 'asg' and n['op'] == '='): continue
+                l = f.nodes[n['lhs']]
+                if not (l and l['k'] == 'ref' and l.get('dk') == 'local'): continue
+                r = f.nodes[n['rhs']]
+                while r and r['k'] in ('icast', 'cast', 'paren'): r = f.nodes[r['e']]
+                if r and r['k'] == 'call' and r.get('op') == '()' and len(r.get('args', [])) == 2:
+                    a0 = f.nodes[r['args'][0]]
+                    while a0 and a0['k'] in ('icast', 'cast', 'paren'): a0 = f.nodes[a0['e']]
+                    if not (a0 and a0['k'] == 'ref' and a0.get('n') == l['n']):
+                        ok = False; why = 'a fold step combines %s (not the accumulated value %s) with the region\'s answer: regions between the first and the last do not count' % (f.expr(r['args'][0]), l['n'])
             # every region takes part in the fold: the loop may be left before the bound only when the accumulated value is
             # absorbing for the operator of THIS instantiation (true for OR, false for AND)
             from rules_struct import cond_facts
